@@ -283,6 +283,7 @@ func main() {
 	c.Family("words", req, checker, 1300)
 	c.Family("random", req, checker, 40)
 	c.Family("targeted", req, checker, 200)
+	c.Family("http", req, checker, 700)
 
 	if c.Replay != "" {
 		var h pcdrv.History
@@ -338,7 +339,7 @@ func main() {
 	}
 	for _, warm := range []bool{false, true} {
 		for _, pre := range prefixes {
-			for k := 0; k < 5; k++ {
+			for k := 0; k < 6; k++ {
 				h := wordHistory(warm, pre)
 				b := &builder{nsrc: 2, ops: h.Ops}
 				switch k {
@@ -362,6 +363,13 @@ func main() {
 					o := pcdrv.Get(3)
 					o.DuringMiss = true
 					b.ops = append(b.ops, o)
+				case 5:
+					// new data at source 0, a refresh held open in it, and a lookup of an
+					// uncached provider arriving meanwhile (it queues behind the refresh)
+					b.ops = append(b.ops, pcdrv.Set(0, P, 50), pcdrv.Set(0, Q, 50))
+					o := pcdrv.Refresh()
+					o.MissDuring = 3
+					b.ops = append(b.ops, o)
 				}
 				b.ops = append(b.ops, pcdrv.Get(P), pcdrv.Refresh(), pcdrv.Get(Q))
 				items = append(items, &item{fam: "targeted", h: pcdrv.History{NSrc: 2, Ops: b.ops}})
@@ -370,6 +378,33 @@ func main() {
 	}
 	nTargeted := len(items) - nWords
 
+	// ---- the same sources served over HTTP and read by pcache's own HTTP source: all words
+	// of length 3 (cold and warm), and seeded random histories
+	nBeforeHTTP := len(items)
+	var gen3 func(prefix []int)
+	gen3 = func(prefix []int) {
+		if len(prefix) == 3 {
+			w := append([]int{}, prefix...)
+			for _, warm := range []bool{false, true} {
+				h := wordHistory(warm, w)
+				h.HTTP = true
+				items = append(items, &item{fam: "http", h: h})
+			}
+			return
+		}
+		for s := 0; s < 12; s++ {
+			gen3(append(prefix, s))
+		}
+	}
+	gen3(nil)
+	hr := c.Rng.Fork("http-random")
+	for i := 0; i < c.Pick(150, 2000); i++ {
+		h := randomHistory(hr)
+		h.HTTP = true
+		items = append(items, &item{fam: "http", h: h})
+	}
+	nHTTP := len(items) - nBeforeHTTP
+
 	// ---- seeded random histories of length 10..40 over 1..3 sources, 1..4 providers
 	rr := c.Rng.Fork("random")
 	for i := 0; i < c.Pick(400, 8000); i++ {
@@ -377,6 +412,7 @@ func main() {
 	}
 
 	// ---- run
+	probe := pcdrv.StartProbe()
 	jobs := make(chan *item, 256)
 	var wg sync.WaitGroup
 	for w := 0; w < 96; w++ {
@@ -393,16 +429,61 @@ func main() {
 	}
 	close(jobs)
 	wg.Wait()
+	firstPass := probe.Snapshot()
+
+	// ---- histories whose real-time margins did not hold (an epoch did not fit inside the
+	// time-to-live, an overlapping request arrived late) are run again, two at a time, with
+	// margins 8x wider and several attempts, within a time budget
+	var again []*item
+	for _, it := range items {
+		if !it.res.TimingOK {
+			again = append(again, it)
+		}
+	}
+	c.CountN("timing:rerun-with-wider-margins", len(again))
+	if len(again) > 0 {
+		deadline := time.Now().Add(time.Duration(c.Pick(45, 300)) * time.Second)
+		rj := make(chan *item, len(again))
+		for _, it := range again {
+			rj <- it
+		}
+		close(rj)
+		var rwg sync.WaitGroup
+		for w := 0; w < 2; w++ {
+			rwg.Add(1)
+			go func() {
+				defer rwg.Done()
+				for it := range rj {
+					if time.Now().After(deadline) {
+						continue
+					}
+					r := pcdrv.RunStable(it.h, 8*ttl, 3)
+					if r.TimingOK {
+						it.res = r
+						it.cl, it.si, it.msg = pcdrv.Oracle(it.h.NSrc, r.Steps)
+					}
+				}
+			}()
+		}
+		rwg.Wait()
+	}
+	pstats := probe.Stop()
+	c.Note("first pass: " + firstPass.String())
+	c.Note("whole run: " + pstats.String())
 
 	// ---- account, emit
 	unstable := 0
+	var firstUnstable *item
 	mergeCross := 0
 	for i, it := range items {
 		c.Eval()
 		c.Count("family:" + it.fam)
 		if !it.res.TimingOK {
 			unstable++
-			c.Count("timing-unstable(skipped):" + it.res.Note)
+			if firstUnstable == nil {
+				firstUnstable = it
+			}
+			c.Count("not-explored:timing:" + it.res.Note)
 			continue
 		}
 		nontrivial := false
@@ -473,8 +554,15 @@ func main() {
 		}
 	}
 	c.CountN("histories-with-several-size-changes-of-the-maps", mergeCross)
+	c.CountN("not-explored:timing", unstable)
 	if unstable*50 > len(items) {
-		c.Fail("timing-unstable", fmt.Sprintf("%d of %d histories could not be run within the real-time margins (machine too loaded?)", unstable, len(items)), nil)
+		// more than 2% could not be run even with wide margins: the machine, or the code?
+		if pstats.Busy(ttl) || firstPass.Busy(ttl) {
+			c.Note(fmt.Sprintf("%d of %d histories were NOT explored: their real-time margins did not hold even 8x wider, and the scheduler probe shows the machine was busy (%s); a loaded machine is not a violation", unstable, len(items), pstats.String()))
+		} else {
+			c.Fail("timing-overrun-on-quiet-machine", fmt.Sprintf("%d of %d histories overran their real-time margins (an epoch of a few cache calls took longer than the %v time-to-live, even 8x wider) although the scheduler probe shows a quiet machine (%s): the cache calls themselves got slow or blocked; first such history: %s (%s)",
+				unstable, len(items), ttl, pstats.String(), pcdrv.OpsString(firstUnstable.h.Ops), firstUnstable.res.Note), firstUnstable.h)
+		}
 	}
 
 	// ---- failures: first of each class in enumeration order, shrunk
@@ -500,11 +588,11 @@ func main() {
 	}
 
 	c.Res.Exhaustive = true
-	c.Res.Rule = fmt.Sprintf("all words of length %d over %d symbols {%v} on 2 sources / 2 providers, each from an empty cache and from a warm one (%d histories, exhaustive); %d targeted histories with overlapping Refresh requests and a Refresh arriving during a miss; seeded random histories of 10..40 ops over 1..3 sources and 1..4 providers (+1 nobody reports): content changes (advance, regress, drop, missing time, same time), refresh (plain / failing sources / cancelled at an index / overlapping), lookups (hit, miss, negative, failing source, refresh during the miss), expiries. Real time-to-live %v, one sleep per expiry, every epoch checked to fit inside it. Non-trivial = contains a successful refresh after a cancelled one, a failing source, a negative hit, a waiting request or an expiry after a successful refresh", wlen, nsym, symbolNames[:nsym], nWords, nTargeted, ttl)
+	c.Res.Rule = fmt.Sprintf("all words of length %d over %d symbols {%v} on 2 sources / 2 providers, each from an empty cache and from a warm one (%d histories, exhaustive); %d targeted histories with overlapping Refresh requests, a Refresh arriving during a miss and a miss arriving during a Refresh; %d histories (all words of length 3 + seeded random ones) with the scripted sources served over HTTP and read through pcache.NewHTTPSource; records carry distinguishable content incl. a head-advertisement CID per version and every record handed out is re-read after every later call (it must never change); seeded random histories of 10..40 ops over 1..3 sources and 1..4 providers (+1 nobody reports): content changes (advance, regress, drop, missing time, same time), refresh (plain / failing sources / cancelled at an index / overlapping), lookups (hit, miss, negative, failing source, refresh during the miss), expiries. Real time-to-live %v, one sleep per expiry, every epoch checked to fit inside it. Non-trivial = contains a successful refresh after a cancelled one, a failing source, a negative hit, a waiting request or an expiry after a successful refresh", wlen, nsym, symbolNames[:nsym], nWords, nTargeted, nHTTP, ttl)
 }
 
 func classRank(cl string) int {
-	order := []string{"panic", "refresh-missing-provider", "refresh-stale-record", "wait-missing-provider", "wait-during-miss-missing-provider", "wait-stale-record", "wait-during-miss-stale-record"}
+	order := []string{"panic", "held-record-mutated", "record-not-as-reported", "refresh-missing-provider", "refresh-stale-record", "wait-missing-provider", "wait-during-miss-missing-provider", "wait-stale-record", "wait-during-miss-stale-record"}
 	for i, o := range order {
 		if o == cl {
 			return i
